@@ -143,6 +143,13 @@ theorem C24_hash_congr_scalars :
     HashCongr voidEqual voidHash ∧ HashCongr boolEqual boolHash ∧ HashCongr intEqual intHash ∧
     HashCongr strEqual strHash := scalar_hash_congr
 
+/-- the string hash as the prelude computes it — an index loop over `string_count_bytes` /
+    `string_nth_byte` — never indexes out of range and is FNV-1a folded over the bytes -/
+theorem C24_string_hash_loop (s : StrOps.Bytes) : strHashIndexed s = some (strHash s) :=
+  strHashIndexed_eq s
+
+example : strHashIndexed [97] = some 0xaf63dc4c8601ec8c := by decide
+
 /-- … tuples of 2, 3, 4 and arrays over components with that property -/
 theorem C24_hash_congr_compound {α β γ δ : Type} {e1 : Eq' α} {e2 : Eq' β} {e3 : Eq' γ} {e4 : Eq' δ}
     {h1 : Hash' α} {h2 : Hash' β} {h3 : Hash' γ} {h4 : Hash' δ}
